@@ -1,3 +1,4 @@
+import Generated.Facts
 import SsoSpec.C07
 
 /-!
@@ -171,5 +172,16 @@ session of the same user is being validated at the same time. -/
 theorem C09_checks_keyed_by_token :
     Sso.Generated.sf_keys_auth.lookup "ValidateSessionState" = some "s.AccessToken" ∧
     Sso.Generated.sf_keys_auth.lookup "RefreshSessionIfNeeded" = some "s.RefreshToken" := by decide
+
+/-- Tie (T1): the authenticator's own `authenticate`, `SignIn` and the code-issuing redirect — call/branch/store skeletons regenerated from the source on every run; the expectations below are
+what the model in this file transliterates. A structural edit of any of these functions breaks this theorem and sends the
+check searching for a failing input. -/
+theorem C09_wiring :
+    Sso.Generated.skel_auth_authenticate =
+      ["call:NewLogEntry", "call:getRemoteAddr", "call:LoadSession", "if{", "call:WithRemoteAddress", "call:Error", "call:ClearSession", "return", "}", "call:LifetimePeriodExpired", "if{", "call:WithUser", "call:Info", "call:ClearSession", "return", "}", "call:RefreshPeriodExpired", "if{", "call:RefreshSessionIfNeeded", "if{", "call:WithUser", "call:Error", "call:ClearSession", "return", "}", "if{", "call:WithUser", "call:Error", "call:ClearSession", "return", "}", "call:SaveSession", "if{", "call:WithUser", "call:Error", "call:ClearSession", "return", "}", "}", "else{", "call:ValidateSessionState", "if{", "call:WithRemoteAddress", "call:WithUser", "call:Error", "call:ClearSession", "return", "}", "call:SaveSession", "if{", "call:WithUser", "call:Error", "call:ClearSession", "return", "}", "}", "call:RunValidators", "call:len", "call:len", "if{", "call:Sprintf", "call:WithUser", "call:Info", "return", "}", "call:Sprintf", "call:WithRemoteAddress", "call:WithUser", "call:Info", "return"] ∧
+    Sso.Generated.skel_auth_SignIn =
+      ["call:getProxyHost", "call:Sprintf", "call:authenticate", "switch{", "case nil{", "call:ProxyOAuthRedirect", "}", "case http.ErrNoCookie{", "call:SignInPage", "}", "case providers.ErrTokenRevoked{", "call:ClearSession", "call:SignInPage", "}", "case sessions.ErrLifetimeExpired,sessions.ErrInvalidSession{", "call:ClearSession", "call:SignInPage", "}", "default{", "call:append", "call:Incr", "call:Error", "call:codeForError", "call:ErrorResponse", "}", "}"] ∧
+    Sso.Generated.skel_auth_ProxyOAuthRedirect =
+      ["call:ParseForm", "if{", "call:Error", "call:ErrorResponse", "return", "}", "call:Get", "if{", "call:append", "call:Incr", "call:ErrorResponse", "return", "}", "call:Get", "if{", "call:append", "call:Incr", "call:ErrorResponse", "return", "}", "call:Parse", "if{", "call:append", "call:Incr", "call:ErrorResponse", "return", "}", "call:MarshalSession", "if{", "call:append", "call:Incr", "call:Error", "call:ErrorResponse", "return", "}", "call:string", "call:getAuthCodeRedirectURL", "if{", "call:append", "call:Incr", "call:Error", "call:ErrorResponse", "return", "}", "call:Redirect"] := by decide
 
 end Sso.AuthN
